@@ -44,6 +44,16 @@ def run_one(mid, props, tier):
                     except Exception:
                         pass
             by_proof = [s for s in sigs if s.startswith("P:")]
+            try:  # every undischarged obligation is in the evidence, also past the 8 VIOLATION lines printed
+                with open(os.path.join(tmp, "out", "evidence", p + ".json")) as f:
+                    ev = json.load(f)
+                for o in ev.get("coverage", {}).get("per_obligation", []):
+                    if o.get("result") not in ("discharged", "vacuity-ok") and o.get("kind") != "vacuity":
+                        sig = "P:%s:%s" % (o.get("function"), o.get("name"))
+                        if sig not in by_proof:
+                            by_proof.append(sig)
+            except Exception:
+                pass
             res[p] = {"exit": out.returncode, "lines": lines[:4], "n_violation_lines": len([l for l in lines if l.startswith("VIOLATION")]), "failed_obligations": by_proof[:6], "driver_violations": [s for s in sigs if not s.startswith("P:")][:4]}
         return mid, res
     finally:
